@@ -86,7 +86,7 @@ func (s *s3Scope) policies(maxEntries, maxConds int, emit func(p *seccomp.Policy
 				}
 				return g
 			}
-			for _, def := range []seccomp.Action{seccomp.ActionAllow, seccomp.ActionKillProcess} {
+			for _, def := range []seccomp.Action{seccomp.ActionAllow, seccomp.ActionErrno} { // errno: the first group then has the default action (an exception list before a later group)
 				p := &seccomp.Policy{DefaultAction: def}
 				p.Syscalls = append(p.Syscalls, mk(seq[:split], seccomp.ActionErrno))
 				if split < len(seq) {
